@@ -1996,13 +1996,17 @@ class CompFamily:
             names = spec["quick"] if quick else spec["tests"]
             flagged, seen_dev = [], False
             for j, name in enumerate(names):
-                trace = os.path.join(ctx.work, f"fault-{fault}-{j}.ndjson")
-                p = ctx.run_vh(["comp-run", "-fault", fault, "-exact", name, "-base", "5", "-out", trace], timeout=1200)
-                if p.returncode != 0:
-                    raise Infra(f"vh comp-run -fault {fault} failed: " + p.stderr[-2000:])
-                tests = self.tests_of(trace)
-                if len(tests) != 1:
-                    raise Infra(f"fault run {fault}/{name}: expected one test, got {len(tests)}")
+                # a test that draws part of its input at random is repeated on fresh servers until it gives the required verdict
+                for attempt in range(spec.get("repeat", 1)):
+                    trace = os.path.join(ctx.work, f"fault-{fault}-{j}.ndjson")
+                    p = ctx.run_vh(["comp-run", "-fault", fault, "-exact", name, "-base", "5", "-out", trace], timeout=1200)
+                    if p.returncode != 0:
+                        raise Infra(f"vh comp-run -fault {fault} failed: " + p.stderr[-2000:])
+                    tests = self.tests_of(trace)
+                    if len(tests) != 1:
+                        raise Infra(f"fault run {fault}/{name}: expected one test, got {len(tests)}")
+                    if not tests[0][3]["pass"]:
+                        break
                 total, mism = self.validate(ctx, trace, f"validate-{fault}-{j}")
                 events += total
                 segs += 1
